@@ -2,8 +2,11 @@ package main
 
 import (
 	"fmt"
+	"io"
 	"strconv"
 	"strings"
+
+	"github.com/gabriel-vasile/mimetype"
 )
 
 // obsCase observes the implementation on (x, limit): detector verdict vector on the examined header
@@ -22,6 +25,18 @@ func (c *runCtx) obsCase(kind string, x []byte, limit uint32) {
 		c.propfail("C01", fmt.Sprintf("detector of node %d (%s) panics: limit=%d header=%s", i, c.nodes[i].MIME, limit, hx(hdr)))
 	}
 	m, pan := detectAt(x, limit)
+	// the same bytes handed over as a prefix of a larger poisoned buffer: bytes between len and cap are not input
+	if pan == nil && m != nil {
+		big := make([]byte, len(x), len(x)+4200)
+		copy(big, x)
+		ext := big[:cap(big)]
+		for i := len(x); i < len(ext); i++ {
+			ext[i] = "%PDF-1.7 {\"a\":1}\x00<html>"[i%22]
+		}
+		if m2, pan2 := detectAt(big, limit); pan2 == nil && m2 != nil && chainFull(m2) != chainFull(m) {
+			c.propfail("C01", fmt.Sprintf("Detect reads bytes beyond len(input) (inside the slice's capacity): result %q for the exact slice, %q with spare capacity; limit=%d input=%s", chainFull(m), chainFull(m2), limit, hx(x)))
+		}
+	}
 	chain := "PANIC"
 	if pan != nil {
 		c.propfail("C01", fmt.Sprintf("Detect panics (%v): limit=%d input=%s", pan, limit, hx(x)))
@@ -51,6 +66,43 @@ func (c *runCtx) obsCase(kind string, x []byte, limit uint32) {
 	if c.stats.Evaluations%97 == 1 {
 		c.stats.sample(fmt.Sprintf("obs kind=%s limit=%d len=%d header=%s chain=%s", kind, limit, len(hdr), hx(hdr), chain))
 	}
+}
+
+// limitFlipReader changes the global limit while DetectReader is reading: the call must still behave as one
+// detection at the limit that was in force when it started (C03: one walk, one limit; C06: some instant).
+type limitFlipReader struct {
+	data []byte
+	to   uint32
+	done bool
+}
+
+func (r *limitFlipReader) Read(p []byte) (int, error) {
+	if !r.done {
+		mimetype.SetLimit(r.to)
+		r.done = true
+	}
+	if len(r.data) == 0 {
+		return 0, io.EOF
+	}
+	n := copy(p, r.data)
+	r.data = r.data[n:]
+	return n, nil
+}
+
+func (c *runCtx) flipCase(kind string, x []byte, limit, to uint32) {
+	if !c.mine(x, []byte(strconv.Itoa(int(limit))), []byte(strconv.Itoa(int(to)))) {
+		return
+	}
+	hdr := header(x, limit)
+	vec, _ := c.verdictVector(hdr, limit)
+	mimetype.SetLimit(limit)
+	m, err := mimetype.DetectReader(&limitFlipReader{data: append([]byte{}, x...), to: to})
+	chain := "NIL"
+	if m != nil && err == nil {
+		chain = chainOf(m)
+	}
+	c.stats.note(kind, append([]byte(fmt.Sprintf("%d>%d:", limit, to)), x...), len(hdr), strings.Count(vec, "1") > 1)
+	c.emit("obs", hx(hdr), strconv.Itoa(int(limit)), vec, chain, kind)
 }
 
 func limitsFor(n int) []uint32 {
@@ -126,6 +178,13 @@ func runDetStream(c *runCtx) {
 		}
 		for k := 0; k <= len(m); k++ {
 			c.obsCase("multi", m[:k], 3072)
+		}
+	}
+	// the limit changes while the reader is being read
+	for _, x := range [][]byte{[]byte("{\"a\":1,\"b\":[1,2,3],\"c\":\"" + strings.Repeat("x", 100) + "\"}"), []byte("a,b,c\n1,2,3\n4,5,6\n7,8,9\n"), []byte("{\"a\":1}\n{\"b\":2}\n{\"c\":3}\n"),
+		[]byte("<html><head><meta charset=\"koi8-r\"></head></html>"), cat([]byte("PK\x03\x04"), make([]byte, 26), []byte("META-INF/MANIFEST.MF"))} {
+		for _, pr := range [][2]uint32{{10, 3072}, {3072, 10}, {16, 0}, {0, 16}, {uint32(len(x)), 3072}, {3072, uint32(len(x))}} {
+			c.flipCase("limit-flip", x, pr[0], pr[1])
 		}
 	}
 	// random short strings
